@@ -28,6 +28,7 @@ type FuncContract struct {
 	PkgPath  string
 	Requires []*Clause
 	Ensures  []*Clause
+	Maintains []*Clause
 	Asserts  map[int][]*Clause
 	Modifies []string
 	Loops    map[int]*LoopSpec
@@ -84,7 +85,7 @@ func NewContractSet() *ContractSet {
 	return &ContractSet{Funcs: map[string]*FuncContract{}, Specs: map[string]*SpecFn{}, Ghosts: map[string]*GhostDecl{}, Invs: map[string]*NamedInv{}, OpaqueSorts: map[string]bool{}}
 }
 
-var kwRe = regexp.MustCompile(`^(spec|axiom|ghost|inv|func|extern|requires|ensures|modifies|may_panic|deterministic|nooverflow|inline|mode|bytes|loop|assert|locals|lemma|trusted|pure|opaque|reveal|bounded|keyfns|keyfn|sort|replay)\b`)
+var kwRe = regexp.MustCompile(`^(spec|axiom|ghost|inv|func|extern|requires|ensures|maintains|modifies|may_panic|deterministic|nooverflow|inline|mode|bytes|loop|assert|locals|lemma|trusted|pure|opaque|reveal|bounded|keyfns|keyfn|sort|replay)\b`)
 
 // logical lines: (keyword, rest, line number)
 type cline struct {
@@ -181,6 +182,17 @@ func (cs *ContractSet) LoadFile(path, pkgPath string) error {
 				return fmt.Errorf("%s:%d: duplicate contract for %s", path, l.line, full)
 			}
 			cs.Funcs[full] = cur
+		case "maintains":
+			if cur == nil {
+				return fmt.Errorf("%s:%d: clause outside func", path, l.line)
+			}
+			c, err := mkClause(l)
+			if err != nil {
+				return err
+			}
+			cur.Maintains = append(cur.Maintains, c)
+			cur.Requires = append(cur.Requires, c)
+			cur.Ensures = append(cur.Ensures, c)
 		case "requires", "ensures":
 			if cur == nil {
 				return fmt.Errorf("%s:%d: clause outside func", path, l.line)
